@@ -58,7 +58,14 @@ def drive_generator(it, script, on_step=None):
                 out.append(("yield", norm(it.send(op[1]))))
             elif op[0] == "throw":
                 cls = {"ValueError": ValueError, "KeyError": KeyError, "GeneratorExit": GeneratorExit}[op[1]]
-                out.append(("yield", norm(it.throw(cls(77)))))
+                if len(op) > 2:
+                    import warnings
+
+                    with warnings.catch_warnings():
+                        warnings.simplefilter("ignore", DeprecationWarning)
+                        out.append(("yield", norm(it.throw(cls, 77) if op[2] == "value" else it.throw(cls, (77, 78)))))
+                else:
+                    out.append(("yield", norm(it.throw(cls(77)))))
             elif op[0] == "close":
                 it.close()
                 out.append(("closed",))
